@@ -127,7 +127,8 @@ fn writer(tier: &str) -> Vec<String> {
 }
 
 fn holder(tier: &str) -> Vec<String> {
-    let mut progs = vec!["S1.S2.GG", "S1.GI.G", "S1S2.GG", "S1.S2G", "S1.IG", "S1.S2.G", "S1.G.I", "S1G.S2G", "S1.S2"];
+    // U<n>: the set is made by a destructor while its thread unwinds from a panic
+    let mut progs = vec!["S1.S2.GG", "S1.GI.G", "S1S2.GG", "S1.S2G", "S1.IG", "S1.S2.G", "S1.G.I", "S1G.S2G", "S1.S2", "U1.S2.GG", "U1G.S2G", "S1.U2G"];
     if tier == "thorough" {
         progs.extend(["S1.S2.GIG", "S1G.S2G.GI", "S1.GIG.IG", "S1S2.GI.IG", "S1.S2.S3G", "S1I.S2G.GI", "S1.S2.S3", "S1.S2.G.I", "S1G.S2I.G"]);
     }
